@@ -179,11 +179,18 @@ func (t *tcpHandler) sendCloseMsg() {
 	})
 }
 
-// sendCloseMsgTo sends the reconnect-message to one connection, at most once.
+// sendCloseMsgTo sends the reconnect-message to one connection, at most once
+// (closeMsgSent: 0 not sent, 1 being written, 2 written).
 func (t *tcpHandler) sendCloseMsgTo(conn *connInfo, closeMsg []byte) {
 	if !atomic.CompareAndSwapInt32(&conn.closeMsgSent, 0, 1) {
+		// somebody else is writing it (the write can be queued behind a large response):
+		// give it a moment, so that the caller does not close the connection under it
+		for i := 0; i < 100 && atomic.LoadInt32(&conn.closeMsgSent) == 1; i++ {
+			time.Sleep(10 * time.Millisecond)
+		}
 		return
 	}
+	defer atomic.StoreInt32(&conn.closeMsgSent, 2)
 	TLOG.Debugf("send close message to %v", conn.conn.RemoteAddr())
 	if _, err := conn.conn.Write(closeMsg); err != nil {
 		TLOG.Errorf("send closeMsg to %v failed %v", conn.conn.RemoteAddr(), err)
